@@ -1039,6 +1039,128 @@ func c34Conn(kind string, a [][]byte) *Case {
 		}}
 }
 
+// c34Pool: body streams come from a pool. A chunked body stream is given up in the middle of a chunk and released; the
+// next chunked body (whose stream object comes from the same pool) is read to the end and must deliver exactly its own
+// bytes. side: 'Q' Request.ContinueReadBodyStream, 'P' Response with StreamBody, 'S' two server connections
+// (StreamRequestBody, first handler reads only part of the body).
+func c34Pool(a [][]byte) *Case {
+	if len(a) < 4 || len(a[0]) != 1 {
+		return nil
+	}
+	side := a[0][0]
+	take, _ := strconv.Atoi(string(a[1]))
+	sep := -1
+	for i, x := range a[2:] {
+		if string(x) == c34End {
+			sep = i + 2
+			break
+		}
+	}
+	if sep < 0 {
+		return nil
+	}
+	enc := func(parts [][]byte) (wire, body []byte) {
+		for _, p := range parts {
+			if len(p) == 0 {
+				continue
+			}
+			wire = append(wire, fmt.Sprintf("%x\r\n", len(p))...)
+			wire = append(wire, p...)
+			wire = append(wire, "\r\n"...)
+			body = append(body, p...)
+		}
+		return append(wire, "0\r\n\r\n"...), body
+	}
+	w1, b1 := enc(a[2:sep])
+	w2, b2 := enc(a[sep+1:])
+	if take > len(b1) {
+		take = len(b1)
+	}
+	readDirect := func(wire []byte, n int) ([]byte, error) {
+		var bs io.Reader
+		var done func()
+		if side == 'Q' {
+			req := &fasthttp.Request{}
+			br := bufio.NewReader(bytes.NewReader(append([]byte("POST /p HTTP/1.1\r\nHost: h\r\nTransfer-Encoding: chunked\r\n\r\n"), wire...)))
+			if err := req.Header.Read(br); err != nil {
+				return nil, err
+			}
+			if err := req.ContinueReadBodyStream(br, 0); err != nil {
+				return nil, err
+			}
+			bs, done = req.BodyStream(), req.Reset
+		} else {
+			resp := &fasthttp.Response{}
+			resp.StreamBody = true
+			br := bufio.NewReader(bytes.NewReader(append([]byte("HTTP/1.1 200 OK\r\nTransfer-Encoding: chunked\r\n\r\n"), wire...)))
+			if err := resp.Read(br); err != nil {
+				return nil, err
+			}
+			bs, done = resp.BodyStream(), resp.Reset
+		}
+		defer done()
+		if bs == nil {
+			return nil, errors.New("no body stream")
+		}
+		if n < 0 {
+			b, err := io.ReadAll(bs)
+			return b, err
+		}
+		buf := make([]byte, n)
+		m, err := io.ReadFull(bs, buf)
+		return buf[:m], err
+	}
+	var got1, got2 []byte
+	var err1, err2 error
+	rounds := 0
+	for rounds = 1; rounds <= 3; rounds++ { // the pool is per-P: a few rounds make the reuse near certain, none is needed for soundness
+		if side == 'S' {
+			post := func(wire []byte, rb string) ([]byte, string) {
+				msg := append([]byte(fmt.Sprintf("POST /p?rb=%s&body=ok HTTP/1.1\r\nHost: h\r\nTransfer-Encoding: chunked\r\n\r\n", rb)), wire...)
+				res := runConn(parseCfg([]byte("st=1")), [][]byte{msg})
+				if len(res.Dispatches) == 0 {
+					return nil, "not dispatched"
+				}
+				return res.Dispatches[0].Body, res.Dispatches[0].BodyErr
+			}
+			var e1, e2 string
+			got1, e1 = post(w1, strconv.Itoa(take))
+			got2, e2 = post(w2, "all")
+			if e1 != "" {
+				err1 = errors.New(e1)
+			}
+			if e2 != "" {
+				err2 = errors.New(e2)
+			}
+		} else {
+			got1, err1 = readDirect(w1, take)
+			got2, err2 = readDirect(w2, -1)
+		}
+		if err1 != nil || err2 != nil || !bytes.Equal(got1, b1[:take]) || !bytes.Equal(got2, b2) {
+			break
+		}
+	}
+	impl := fmt.Sprintf("rounds=%d err1=%v err2=%v got1=%d got2=%d", rounds, err1, err2, len(got1), len(got2))
+	return &Case{Impl: impl, Nontrivial: take > 0 && len(b2) > 0, Tags: []string{"pool-" + string(side)},
+		Judge: func([]string) Verdict {
+			if err1 != nil || !bytes.Equal(got1, b1[:take]) {
+				return Verdict{VSpec, "stream-bytes-differ", fmt.Sprintf("first chunked body: read %d bytes %q (err %v), want the first %d bytes %q", len(got1), clipB(got1), err1, take, clipB(b1[:take]))}
+			}
+			if err2 != nil || !bytes.Equal(got2, b2) {
+				return Verdict{VSpec, "pooled-stream-bytes-differ", fmt.Sprintf("a chunked body stream was given up after %d of %d bytes and released; the next chunked body delivered %d bytes %q (err %v), want %d bytes %q",
+					take, len(b1), len(got2), clipB(got2), err2, len(b2), clipB(b2))}
+			}
+			return Ok()
+		}}
+}
+
+func clipB(b []byte) []byte {
+	if len(b) > 40 {
+		return b[:40]
+	}
+	return b
+}
+
 const c34End = "\x00.\x00"
 
 // c34ChunkEncode writes body in chunked coding with random chunk sizes; `weird` selects a syntax variation.
@@ -1146,6 +1268,7 @@ func init() {
 			"dec: valid/mutated chunked bodies through readBodyChunked vs model reader and the RFC 9112 reference decoder; fixed: declared size equal/shorter/longer than produced; " +
 			"close: random sequences (2..9 ops) of SetBodyStream(ok|Read error|Read panic at call k)/Write(ok|failing writer)/ResetBody/Reset/ReleaseBody/CloseBodyStream/SetBody/Body()/compress on Request and Response with Close counters; " +
 			"sw: StreamWriter parts+flush patterns through SetBodyStreamWriter and NewStreamReader (also closed early); conn: keep-alive pipelines with stream=/sw= responses and chunked streamed request bodies through the in-memory server connection; " +
+			"pool: a chunked body stream (Request.ContinueReadBodyStream, Response.StreamBody, server StreamRequestBody) given up mid-chunk and released, then the next chunked body read to the end; " +
 			"gopanic: Read panic inside the compressing goroutine (child process). non-trivial = >=2 non-empty parts / >=3 events on >=1 stream / body non-empty; distinct = distinct input",
 		NoShrink: false,
 		Assumptions: []string{
@@ -1170,6 +1293,8 @@ func init() {
 				return c34Conn(kind, a)
 			case "gopanic":
 				return c34GoPanic(kind, a)
+			case "pool":
+				return c34Pool(a)
 			}
 			return nil
 		},
@@ -1319,6 +1444,23 @@ func init() {
 			swObjs := []byte("RQNE")
 			for i := 0; i < n/3; i++ {
 				emit("sw", append([][]byte{{swObjs[r.Intn(4)]}, {byte(r.Intn(256))}}, genParts(6)...)...)
+			}
+			// pooled body streams: one given up mid-chunk, the next read to the end
+			for i := 0; i < n/12; i++ {
+				p1 := genParts(3)
+				first := r.Bytes(2+r.Intn(300), []byte("abc\r\n0123456789"))
+				p1 = append([][]byte{first}, p1...)
+				take := r.Intn(len(first)) // strictly inside the first chunk: chunkLeft > 0 when released
+				if r.Chance(15) {
+					take = len(first)
+				}
+				args := [][]byte{{[]byte("QQPPS")[r.Intn(5)]}, N(take)}
+				args = append(args, p1...)
+				args = append(args, B(c34End))
+				p2 := genParts(4)
+				p2 = append(p2, r.Bytes(1+r.Intn(40), []byte("Qhello\r\n0")))
+				args = append(args, p2...)
+				emit("pool", args...)
 			}
 			// connections
 			for i := 0; i < n/6; i++ {
